@@ -396,6 +396,80 @@ def h_set_block(V, sym, nd, lt, diag, kind):
     V.check('storage-is-the-sum-of-the-blocks', a.struct.size == sum(prod(b[1]) if not diag else b[1][0] for b in newb) if newb else a.struct.size == 0)
 
 
+def h_set_block_refusals(V, sym, nd, lt, what):
+    """
+    a call that set_block refuses (non-positive dimension; dimension inconsistent with a sector already present) raises YastnError and
+    leaves the tensor exactly as it was -- in particular not with the offending block half inserted
+    """
+    from yastn import YastnError
+    nsym = len(MOD[sym])
+    a = mk(V, sym, nd, lt, None, stem='a')
+    va = view(a, sym)
+    old_struct, old_slices, old_data = a.struct, a.slices, a._data
+    ts = tuple(V.int(f"new_t{i}") for i in range(nd * nsym))
+    Ds = [V.int(f"new_D{i}", lo=1) for i in range(nd)]
+    for i in range(nd):
+        for j, m in enumerate(MOD[sym]):
+            if m:
+                V.assume(And(ts[i * nsym + j] >= 0, ts[i * nsym + j] < m))
+    if nsym:
+        V.assume(deep_eq(tuple(FUSE_S([leg_charge(ts, l, nsym) for l in range(nd)], va['s'], 1, sym)), tuple(a.struct.n)))
+    for b in a.struct.t:
+        V.assume(Not(deep_eq(tuple(b), ts)))
+    if what == 'zero-dimension':
+        Ds[0] = 0
+    elif what == 'negative-dimension':
+        Ds[nd - 1] = -1
+    else:       # inconsistent with a sector that an existing block already fixes
+        if lt == 0:
+            return
+        bt, bD = a.struct.t[0], a.struct.D[0]
+        V.assume(deep_eq(leg_charge(bt, 0, nsym), leg_charge(ts, 0, nsym)))
+        V.assume(Not(bD[0] == Ds[0]))
+    out = V.outcome(a.set_block, ts=ts if nsym else (), Ds=tuple(Ds), val='zeros')
+    V.check('refused-with-YastnError', out.raised(YastnError))
+    V.check('refused-call-leaves-the-tensor-untouched', a.struct is old_struct and a.slices is old_slices and a._data is old_data)
+
+
+def h_set_block_lazy(V, sym):
+    """ set_block on a tensor that carries a pending transposition: charges and dimensions are meant in the LOGICAL leg order """
+    nsym = len(MOD[sym])
+    a = mk(V, sym, 2, 0, (1, 0), stem='a')                          # no blocks yet, legs (0, 1) held as native (1, 0)
+    va = view(a, sym)
+    ts = tuple(V.int(f"new_t{i}") for i in range(2 * nsym))
+    Ds = (V.int('new_D0', lo=1), V.int('new_D1', lo=1))
+    for i in range(2):
+        for j, m in enumerate(MOD[sym]):
+            if m:
+                V.assume(And(ts[i * nsym + j] >= 0, ts[i * nsym + j] < m))
+    V.assume(deep_eq(tuple(FUSE_S([leg_charge(ts, l, nsym) for l in range(2)], va['s'], 1, sym)), tuple(a.struct.n)))   # valid in the logical order
+    out = V.outcome(a.set_block, ts=ts, Ds=Ds, val='zeros')
+    V.check('lazy:block-given-in-logical-order-accepted', out.exc is None)
+    if out.exc is None:
+        vb = view(a, sym)
+        V.check('lazy:block-present-in-the-logical-view', Or(*[And(deep_eq(b[0], ts), deep_eq(b[1], Ds)) for b in vb['blocks']]) if vb['blocks'] else False)
+
+
+def h_add_meta_leg(V, sym, lt, axis):
+    """ add_leg(axis, leg=<meta-fused dimension-one leg>): every admissible axis, negative ones counted from the end as everywhere else """
+    nsym = len(MOD[sym])
+    p = mk(V, sym, 2, 1, None, stem='p')
+    V.assume(And(p.struct.D[0][0] == 1, p.struct.D[0][1] == 1))
+    lm = V.call(V.call(p.fuse_legs, axes=((0, 1),), mode='meta').get_legs, axes=0)
+    c = mk(V, sym, 2, lt, None, stem='c')
+    vc = view(c, sym)
+    k = axis % 3
+    r = V.call(c.add_leg, axis=axis, leg=lm)
+    check_wf(V, r, sym, 'wf(add_leg)')
+    V.check('meta-fusion-record-spliced-at-the-requested-position', r.mfs == c.mfs[:k] + (lm.mf,) + c.mfs[k:])
+    vr = view(r, sym)
+    V.check('two-native-legs-inserted-at-the-requested-position', deep_eq(vr['s'], vc['s'][:k] + tuple(lm.legs[i].s for i in range(2)) + vc['s'][k:]))
+    V.check('rank-and-shape-readable', r.ndim == 3 and r.ndim_n == 4)
+    out = V.outcome(r.get_shape)
+    V.check('get_shape-works-on-the-result', out.exc is None)
+    V.check('one-block-per-old-block', len(vr['blocks']) == len(vc['blocks']))
+
+
 def h_fill_tensor(V, sym, nd, nsec, diag):
     """
     _fill_tensor (behind rand / zeros / ones / eye): from per-leg sector lists, the tensor holds exactly the combinations that satisfy
@@ -587,6 +661,17 @@ def units(tier):
                 continue
             for kind in ('new', 'replace'):
                 U.append(('h_set_block', f"{sym},diag,lt={lt},{kind}", dict(sym=sym, nd=2, lt=lt, diag=True, kind=kind)))
+        for nd in (1, 2):
+            for lt in (0, 1, 2):
+                if dense_ and lt > 1:
+                    continue
+                for what in ('zero-dimension', 'negative-dimension', 'inconsistent-dimension'):
+                    U.append(('h_set_block_refusals', f"{sym},nd={nd},lt={lt},{what}", dict(sym=sym, nd=nd, lt=lt, what=what)))
+        if not dense_:
+            U.append(('h_set_block_lazy', sym, dict(sym=sym)))
+            for lt in (1, 2):
+                for axis in (0, 1, 2, -1, -2, -3):
+                    U.append(('h_add_meta_leg', f"{sym},lt={lt},axis={axis}", dict(sym=sym, lt=lt, axis=axis)))
         for nd, nsec in ((1, 2), (2, 1), (2, 2)) + (((3, 1), (3, 2)) if (th and len(MOD[sym]) <= 1) else ((3, 1),)):
             if dense_ and nsec > 1:
                 continue
